@@ -6,6 +6,7 @@ package main
 
 import (
 	"fmt"
+	"github.com/basecomplextech/baselibrary/buffer"
 	"os"
 	"strconv"
 	"sync"
@@ -59,37 +60,54 @@ func main() {
 // goroutines that build complete messages (about one second).
 func writerPhase() {
 	var wg sync.WaitGroup
-	stop := time.Now().Add(time.Second)
-	for g := 0; g < 8; g++ {
+	stop := time.Now().Add(2 * time.Second)
+	// programs that give up (or fail) midway and release their pooled writers with Free: two writers per round, so
+	// that released writers pile up in the pool and become visible to the other processors
+	for g := 0; g < 2; g++ {
 		g := g
 		wg.Add(1)
 		go func() {
 			defer wg.Done()
-			for time.Now().Before(stop) {
+			buf1, buf2 := buffer.New(), buffer.New()
+			for i := 0; time.Now().Before(stop); i++ {
 				for k := 0; k < 200; k++ {
-					switch g % 3 {
-					case 0:
-						m := spec.NewMessageWriter()
-						wr := m.Unwrap()
-						m.Field(1).Bool(true)
-						m.Field(2).Message() // abandoned open
-						wr.Free()
-					case 1:
-						m := spec.NewMessageWriter()
-						wr := m.Unwrap()
-						m.Field(1).Bool(true)
-						wr.Value().Bool(true)
-						wr.Value().Bool(false) // error
-						wr.Free()
-					default:
-						m := spec.NewMessageWriter()
-						m.Field(1).Int32(int32(k))
-						m.Field(2).String("x")
-						if b, err := m.Build(); err != nil {
-							fmt.Fprintf(os.Stderr, "RACECHECK-MISMATCH writer build %v\n", err)
-						} else if mm, _, err := spec.ParseMessage(b); err != nil || mm.Int32(1) != int32(k) {
-							fmt.Fprintf(os.Stderr, "RACECHECK-MISMATCH writer result %v\n", err)
-						}
+					buf1.Reset()
+					buf2.Reset()
+					m1 := spec.NewMessageWriterBuffer(buf1)
+					m2 := spec.NewMessageWriterBuffer(buf2)
+					w1, w2 := m1.Unwrap(), m2.Unwrap()
+					m1.Field(1).Int32(int32(k))
+					m2.Field(1).Int32(int32(k))
+					if g == 1 {
+						m1.Field(2).Message() // abandoned open
+						w2.Value().Bool(true) // error: a root value while the message is open
+					}
+					w1.Free()
+					w2.Free()
+				}
+			}
+		}()
+	}
+	// programs that acquire writers and build complete messages; every other one is dropped without a release (the
+	// writer is garbage collected), so these goroutines keep taking writers out of the pool
+	for g := 0; g < 4; g++ {
+		wg.Add(1)
+		go func() {
+			defer wg.Done()
+			buf := buffer.New()
+			for i := 0; time.Now().Before(stop); i++ {
+				for k := 0; k < 200; k++ {
+					buf.Reset()
+					m := spec.NewMessageWriterBuffer(buf)
+					m.Field(1).Int32(int32(k))
+					if k%2 == 0 {
+						continue
+					}
+					m.Field(2).String("x")
+					if b, err := m.Build(); err != nil {
+						fmt.Fprintf(os.Stderr, "RACECHECK-MISMATCH writer build %v\n", err)
+					} else if mm, _, err := spec.ParseMessage(b); err != nil || mm.Int32(1) != int32(k) {
+						fmt.Fprintf(os.Stderr, "RACECHECK-MISMATCH writer result %v\n", err)
 					}
 				}
 			}
